@@ -90,6 +90,17 @@ def workload(res):
         new = derive.subst_ops(text, rng)
         if new:
             items.append(("ops:" + tag, new, "exec"))
+    # W3d: the same programs in other layouts (a valid program stays valid however it is saved): every newline style, and
+    # seeded compositions of the layout rewrites; the reference tree is computed for the rewritten text itself
+    from .. import layout
+    for tag, text in small[:(1200 if thorough else 150)] + gens[:(6000 if thorough else 900)]:
+        if "\r" in text or len(text) > 20000:
+            continue
+        style = rng.choice(["crlf", "cr", "mixed"])
+        items.append(("nl-%s:%s" % (style, tag), layout.newline_style(text, rng, style), "exec"))
+        new, names = layout.compose(text, rng)
+        if new is not None and pyref.tab_after_space_lines(new) <= pyref.tab_after_space_lines(text):
+            items.append(("layout:%s:%s" % ("+".join(names), tag), new, "exec"))
     # W3b: PEP 695 by erasure
     items += [("pep695:%d" % i, "", "exec") for i in range(seed * 100000, seed * 100000 + (6000 if thorough else 1500))]
     return items
